@@ -7,10 +7,9 @@ git diff --quiet || { echo "/repo has uncommitted changes"; exit 3; }
 git apply "$1"
 cd /verif
 for p in $(/venv/bin/python -c "import json;print(' '.join(c['property_id'] for c in json.load(open('MANIFEST.json'))['checks']))"); do
-  /venv/bin/python -m sa.check $p > /tmp/try_$p.log 2>&1 && rc=0 || rc=$?
+  SA_EVIDENCE_DIR=/tmp/sa_campaign_evidence /venv/bin/python -m sa.check $p > /tmp/try_$p.log 2>&1 && rc=0 || rc=$?
   if [ $rc -ne 0 ]; then echo "== $p exit=$rc"; grep -E -A1 "^VIOLATION|^ANALYSIS-ERROR" /tmp/try_$p.log | head -8; fi
 done
 git -C /repo checkout -- .
-# restore evidence of the unchanged tree
-git -C /verif checkout -- evidence 2>/dev/null || true
+rm -rf /tmp/sa_campaign_evidence
 echo "patch undone"
